@@ -40,13 +40,13 @@ __CPROVER_assigns(g_add_r, g_add_c, g_pos_i, g_pos_n, gp_pe, *out, __CPROVER_obj
 #ifdef WITH_GETTER
 __CPROVER_ensures(!(ACTIVE && g_nz) || *out == val)
 #endif
+#ifndef ONLY_GETTER
 /* the changed cell, in both copies, scaled by the row's plus the column's exponent */
 __CPROVER_ensures(!ACTIVE || (HAS(rm, W, rs, i, j) == g_nz && HAS(cm, W, cs, j, i) == g_nz))
 __CPROVER_ensures(!(ACTIVE && g_nz) || (VALOF(rm, W, rs, i, j) == g_expect && VALOF(cm, W, cs, j, i) == g_expect))
 __CPROVER_ensures(!ACTIVE || (SIZEOK(W, rs, i) && SIZEOK(W, cs, j) && NODUP(rm, W, rs, i) && NODUP(cm, W, cs, j)))
 /* a new entry is handed to BOTH sets (one add2 each), an existing one to neither */
 __CPROVER_ensures(g_add_r == g_add_c && g_add_r == ((ACTIVE && g_nz && !g_had) ? 1 : 0))
-#ifndef NO_FRAME
 /* every other cell: unchanged in both files */
 __CPROVER_ensures((ACTIVE && g_i == i && g_c == j) || (HAS(rm, W, rs, g_i, g_c) == g_rh && (!g_rh || VALOF(rm, W, rs, g_i, g_c) == g_rv)))
 __CPROVER_ensures((ACTIVE && g_i == i && g_c == j) || (HAS(cm, W, cs, g_c, g_i) == g_ch && (!g_ch || VALOF(cm, W, cs, g_c, g_i) == g_cv)))
